@@ -354,8 +354,11 @@ static cfg_opt_t *cfg_getopt_secidx(cfg_t *cfg, const char *name,
 	if (!index) {
 		opt = cfg_getopt_leaf(sec, name);
 
-		/* in a free-form (key=value) section a new key is not an error */
-		if (!opt && !is_set(CFGF_IGNORE_UNKNOWN, cfg->flags) && !is_set(CFGF_KEYSTRVAL, sec->flags))
+		/* in a free-form (key=value) section a new key is not an error:
+		 * the parser adds it.  Reached through a path from outside,
+		 * nothing adds it and it is a name that does not exist. */
+		if (!opt && !is_set(CFGF_IGNORE_UNKNOWN, cfg->flags) &&
+		    !(sec == cfg && is_set(CFGF_KEYSTRVAL, sec->flags)))
 			cfg_error(cfg, _("no such option '%s'"), name);
 	}
 
